@@ -16,7 +16,7 @@ CHECKS = {
              "is never re-pointed and a clash mints an unbound prefix (c03b_prefix_stable, c03b_clash_fresh; termination/freshness of "
              "_get_unused_prefix by pigeonhole), (c) print-and-resolve returns the same name for every owned well-formed name after any "
              "later history keeping the default (c03c_single_scope) and for delegated names under NoShadow (c03c_two_level_partial); "
-             "the unrestricted two-level statement is refuted by a kernel-evaluated witness (c03c_two_level_refuted) = known finding. "
+             "the unrestricted two-level statement is refuted by a kernel-evaluated witness (c03c_two_level_refuted) = known finding. Props/C03B: a name a document's manager resolved from a string is owned by it (resolveOwn_owned) and an owned name is a fixed point of the QualifiedName path (validQ_owned_fixpoint), so it re-enters the manager - as identifier, attribute name, value or datatype of a record being read - without registering a namespace, generating a prefix or adopting a default (c03_resolved_name_reenters_unchanged, in every state of every namespace history). "
              "Model tied to the code by op-sequence correspondence after every operation.",
         note=A_COMMON + " Partial: bundle-scope names captured by the bundle's own bindings and default-namespace locals containing ':' "
              "are genuine defects of the pinned code, listed in known_findings.json. add_namespace with an empty prefix is outside the proved domain.",
